@@ -43,6 +43,7 @@ var Quirks = []Quirk{
 	{ID: "C01-union-in-body-fields", Detect: hasUnionInBodyFields, SigAny: []string{"== nil (mismatched types", "cannot indirect", "cannot use &_ (value of type *struct{…}"}},
 	{ID: "C01-result-type-response-cookie-with-default", Detect: hasResultTypeCookieWithDefault, SigAny: []string{"server/encode_decode: declared and not used"}},
 	{ID: "C01-map-key-bool-or-float-gen-fails", Detect: hasBoolOrFloatMapKey, SigAny: []string{"gen-error"}},
+	{ID: "C01-body-attr-recursive-validated-user-type", Detect: hasBodyAttrRecursiveValidatedUT, SigAny: []string{"client/cli: undefined: _"}},
 	{ID: "C01-bytes-param-with-length-validation", Detect: hasBytesParamWithLength, SigAny: []string{"client/cli: undefined: _"}},
 	{ID: "C01-result-type-required-validated-response-header", Detect: hasResultTypeRequiredValidatedHeader, SigAny: []string{"client/encode_decode: invalid operation: _ != nil (mismatched types"}},
 }
@@ -198,6 +199,53 @@ func hasBoolOrFloatMapKey(d *m.Design) bool {
 		}
 	}
 	return eachMethod(d, func(s *m.Service, meth *m.Method) bool { return walk(meth.Payload, 0) || walk(meth.Result, 0) })
+}
+
+// BodyAttrRecursiveValidatedUT: request Body("x") naming an attribute whose
+// type is a recursive user type that carries validations.
+func BodyAttrRecursiveValidatedUT(d *m.Design, meth *m.Method) bool {
+	if meth.HTTP == nil || meth.HTTP.Body == nil || meth.HTTP.Body.Mode != "attr" || meth.Payload == nil {
+		return false
+	}
+	f := d.FieldByName(meth.Payload, meth.HTTP.Body.Attr)
+	if f == nil || f.Attr.Type.Kind != m.User {
+		return false
+	}
+	ut := d.TypeByName(f.Attr.Type.User)
+	if ut == nil || ut.Attr == nil || !isRecursiveType(d, ut.Name) {
+		return false
+	}
+	has := false
+	var walk func(a *m.Attr, depth int)
+	walk = func(a *m.Attr, depth int) {
+		if a == nil || a.Type == nil || depth > 6 || has {
+			return
+		}
+		if !a.V.Empty() {
+			has = true
+			return
+		}
+		switch a.Type.Kind {
+		case m.Object:
+			for _, sub := range a.Type.Fields {
+				if sub.Required {
+					has = true
+				}
+				walk(sub.Attr, depth+1)
+			}
+		case m.Array:
+			walk(a.Type.Elem, depth+1)
+		case m.Map:
+			walk(a.Type.Key, depth+1)
+			walk(a.Type.Val, depth+1)
+		}
+	}
+	walk(ut.Attr, 0)
+	return has
+}
+
+func hasBodyAttrRecursiveValidatedUT(d *m.Design) bool {
+	return eachMethod(d, func(s *m.Service, meth *m.Method) bool { return BodyAttrRecursiveValidatedUT(d, meth) })
 }
 
 // hasBytesParamWithLength: a Bytes attribute with a length validation carried
